@@ -16,10 +16,8 @@
 From Coq Require Import List Arith Lia Bool PeanoNat ZifyBool.
 Import ListNotations.
 
-(* ---------------------------------------------------------------------- *)
 (* 0. Generic list facts (kept outside the section: inside it the name S  *)
 (*    denotes the type of shared states, not the successor of nat).       *)
-(* ---------------------------------------------------------------------- *)
 
 (* [upd n x l] replaces position n of l by x (no effect if out of range). *)
 Fixpoint upd {A : Type} (n : nat) (x : A) (l : list A) : list A :=
@@ -105,9 +103,7 @@ Proof.
     + intros t; simpl. destruct (key a =? t); reflexivity.
 Qed.
 
-(* ====================================================================== *)
 (* 1. The model                                                           *)
-(* ====================================================================== *)
 Section Mutex.
   Variables (S L R call : Type).  (* shared state, method-local state, result, method call *)
   Variable l0 : call -> L.        (* local state a method body starts with *)
@@ -209,9 +205,7 @@ Section Mutex.
        tasks := map (fun p => {| prog := p; st := Idle; out := [] |}) progs;
        log := [] |}.
 
-  (* ==================================================================== *)
   (* 2. The invariant                                                     *)
-  (* ==================================================================== *)
   Definition call_of (e : nat * call * R) : call := snd (fst e).
   Definition is_of (t : nat) (e : nat * call * R) : bool := fst (fst e) =? t.
   Definition calls (lg : list (nat * call * R)) : list call := map call_of lg.
@@ -335,7 +329,7 @@ Section Mutex.
         destruct Iser as (tk0 & c1 & l1 & dn & rs & s1 & A & B & C & D & E).
         rewrite Ht in A; inversion A; subst tk0. rewrite Hst in B; inversion B; subst c1 l1 rs.
         rewrite app_nil_r in C. unfold calls, results in *. rewrite !map_app; simpl.
-        rewrite (seq_run_snoc _ _ c _ _ D).
+        change (call_of (t, c, res c l)) with c. rewrite (seq_run_snoc _ _ c _ _ D).
         unfold atomic, call_of; simpl. unfold run_fs in E. rewrite C, E. reflexivity.
       + intros t' tk' H'. apply nth_error_upd_inv in H' as [[-> ->]|[Hne H']]; simpl.
         * rewrite filter_snoc_same, map_app, <- (Iout _ _ Ht). reflexivity.
@@ -354,9 +348,7 @@ Section Mutex.
     - eapply Inv_step; eauto.
   Qed.
 
-  (* ==================================================================== *)
   (* 3. The theorems                                                      *)
-  (* ==================================================================== *)
 
   (* the stronger invariant, also valid while the lock is held *)
   Lemma inv_reachable : forall s0 progs cfg,
@@ -439,8 +431,8 @@ Section Mutex.
     pose proof (Inv_steps _ _ _ H) as [Ilen Ilock Iser _ Iprog Iids].
     assert (P : forall t, map call_of (filter (is_of t) (log cfg)) = nth t progs []).
     { intros t. destruct (nth_error (tasks cfg) t) as [tk|] eqn:E.
-      - pose proof (Iprog _ _ E) as X. destruct (Hdone tk (nth_error_In _ _ E)) as [-> ->].
-        simpl in X. now rewrite app_nil_r in X.
+      - pose proof (Iprog _ _ E) as X. destruct (Hdone tk (nth_error_In _ _ E)) as [Y Z].
+        rewrite Y, Z in X. simpl in X. now rewrite app_nil_r in X.
       - apply nth_error_None in E. rewrite nth_overflow by lia.
         destruct (filter (is_of t) (log cfg)) as [|e f] eqn:F; auto.
         assert (X : In e (filter (is_of t) (log cfg))) by (rewrite F; now left).
@@ -451,14 +443,15 @@ Section Mutex.
       destruct (Hdone tk (nth_error_In _ _ X)) as [Z _]. congruence. }
     repeat split; auto.
     - rewrite (length_by_key _ (fun e => fst (fst e)) (length (tasks cfg)) (log cfg) Iids).
-      rewrite Ilen. rewrite <- (map_nth_seq0 _ [] progs) at 3. rewrite map_map.
+      rewrite Ilen.
+      transitivity (list_sum (map (@length call) (map (fun t => nth t progs []) (seq 0 (length progs)))));
+        [|now rewrite map_nth_seq0].
+      rewrite map_map.
       apply f_equal, map_ext. intros t. rewrite <- P. now rewrite map_length.
     - now apply (serializable s0 progs).
   Qed.
 
-  (* ==================================================================== *)
   (* 4. Real-time order: a ghost clock refining [step]                    *)
-  (* ==================================================================== *)
   (* [now] ticks at every step; [started t] is the time of the last start step of task t;
      [tlog] is the log decorated with (start time, finish time) of every completed call. *)
   Record clock := { now : nat; started : nat -> nat;
@@ -517,6 +510,10 @@ Section Mutex.
     steps (init s0 progs) cfg -> exists k, stepsT (initT s0 progs) (cfg, k).
   Proof. intros; now apply steps_lift. Qed.
 
+  Theorem timed_reachable_erase : forall s0 progs cfg k,
+    stepsT (initT s0 progs) (cfg, k) -> steps (init s0 progs) cfg.
+  Proof. intros s0 progs cfg k H. exact (stepsT_erase _ _ H). Qed.
+
   Record TInv (x : config * clock) : Prop := {
     ti_log  : map fst (tlog (snd x)) = log (fst x);
     ti_run  : forall t tk, nth_error (tasks (fst x)) t = Some tk -> st tk <> Idle ->
@@ -530,20 +527,15 @@ Section Mutex.
     intros x y [Ilog Irun Ipast Irt] H; simpl in *.
     destruct H as [cfg k t tk c p Ht Hst Hp | cfg k t tk c Ht Hst Hh
                   | cfg k t tk c l f rest Ht Hst | cfg k t tk c l Ht Hst]; simpl in *.
+    2,3: (constructor; simpl; auto;   (* acquire, micro: only the clock ticks *)
+      [ intros t' tk' H' Hn; apply nth_error_upd_inv in H' as [[-> ->]|[Hne H']];
+        [ assert (started k t < now k) by (apply (Irun _ _ Ht); congruence); lia
+        | specialize (Irun _ _ H' Hn); lia ]
+      | intros e He; specialize (Ipast e He); lia ]).
     - constructor; simpl; auto.
       + intros t' tk' H' Hn. apply nth_error_upd_inv in H' as [[-> ->]|[Hne H']].
         * rewrite Nat.eqb_refl. lia.
         * destruct (t' =? t) eqn:E; [lia|]. specialize (Irun _ _ H' Hn). lia.
-      + intros e He. specialize (Ipast e He). lia.
-    - constructor; simpl; auto.
-      + intros t' tk' H' Hn. apply nth_error_upd_inv in H' as [[-> ->]|[Hne H']].
-        * assert (started k t < now k) by (apply (Irun _ _ Ht); congruence). lia.
-        * specialize (Irun _ _ H' Hn). lia.
-      + intros e He. specialize (Ipast e He). lia.
-    - constructor; simpl; auto.
-      + intros t' tk' H' Hn. apply nth_error_upd_inv in H' as [[-> ->]|[Hne H']].
-        * assert (started k t < now k) by (apply (Irun _ _ Ht); congruence). lia.
-        * specialize (Irun _ _ H' Hn). lia.
       + intros e He. specialize (Ipast e He). lia.
     - assert (Hs : started k t < now k) by (apply (Irun _ _ Ht); congruence).
       constructor; simpl.
@@ -566,9 +558,11 @@ Section Mutex.
   Lemma TInv_steps : forall s0 progs y, stepsT (initT s0 progs) y -> TInv y.
   Proof.
     intros s0 progs y H. remember (initT s0 progs) as x eqn:E. induction H.
-    - subst. constructor; simpl; auto; try (intros ? []).
+    - subst. constructor; simpl.
+      + reflexivity.
       + intros t tk H Hn. rewrite nth_error_map in H.
         destruct (nth_error progs t); simpl in H; inversion H; subst. simpl in Hn. congruence.
+      + intros e [].
       + intros [|i] j a b Ha; discriminate.
     - eapply TInv_step; eauto.
   Qed.
@@ -583,9 +577,7 @@ Section Mutex.
     intros s0 progs cfg k H. apply TInv_steps in H. destruct H as [A _ _ B]. split; assumption.
   Qed.
 
-  (* ==================================================================== *)
   (* 5. An executable scheduler (to build concrete runs by computation)   *)
-  (* ==================================================================== *)
   (* [fire t cfg]: let task t make its next move, if it is enabled *)
   Definition fire (t : nat) (cfg : config) : option config :=
     match nth_error (tasks cfg) t with
@@ -643,10 +635,22 @@ Arguments atomic {S L R call} l0 body res c s.
 Arguments seq_run {S L R call} l0 body res s cs.
 Arguments fire {S L R call} l0 body res t cfg.
 Arguments run_sched {S L R call} l0 body res ts cfg.
+Arguments running {S L call} s.
+Arguments current {S L call} s.
+Arguments now {R call} c.
+Arguments started {R call} c.
+Arguments tlog {R call} c.
+Arguments sta {R call} e.
+Arguments fin {R call} e.
+Arguments stepT {S L R call} l0 body res _ _.
+Arguments stepsT {S L R call} l0 body res _ _.
+Arguments initT {S L R call} s0 progs.
+Arguments serial_inv {S L R call} l0 body res s0 cfg.
+Arguments run_fs {S L} fs x.
+Arguments calls {R call} lg.
+Arguments results {R call} lg.
 
-(* ====================================================================== *)
 (* 6. A concrete instance: an append-only log (non-vacuity check)         *)
-(* ====================================================================== *)
 Inductive acall := Append (x : nat) | Len.
 Definition aL : Type := (nat * nat)%type.           (* scratch cell, result cell *)
 Definition a_l0 (c : acall) : aL := (0, 0).
@@ -735,6 +739,7 @@ Print Assumptions lock_exclusive.
 Print Assumptions finished_all_serial.
 Print Assumptions stepsT_erase.
 Print Assumptions reachable_has_clock.
+Print Assumptions timed_reachable_erase.
 Print Assumptions realtime_respected.
 Print Assumptions run_sched_sound.
 Print Assumptions demo_run.
